@@ -40,6 +40,8 @@ pub enum Op {
     DeletePrefix { author: usize, key: Vec<u8> },
     InsertRemote { author: usize, key: Vec<u8>, ts_off: u64, content: Option<usize> },
     InitialMessage,
+    /// a reconciliation message carrying one entry (gated by the sync switch like the others)
+    ProcessMessage { author: usize, key: Vec<u8>, ts_off: u64, content: Option<usize> },
     GetExact { author: usize, key: Vec<u8> },
     GetMany,
     GetState,
@@ -168,6 +170,14 @@ impl DocSpec {
                     Reply::Err
                 }
             }
+            Op::ProcessMessage { author, key, ts_off, content } => {
+                if !matches!(self.open, Some((_, true, _))) {
+                    return Reply::Err;
+                }
+                let e = uni.entry(*author, key, uni.t0 + ts_off, *content);
+                let _ = self.entries.offer(&e); // a superseded entry is silently not applied
+                Reply::Ok
+            }
             Op::GetExact { author, key } => {
                 if self.open.is_none() {
                     return Reply::Err;
@@ -253,6 +263,12 @@ impl Client<'_> {
                 ok(h.insert_remote(ns, e, [3u8; 32], ContentStatus::Complete).await)
             }
             Op::InitialMessage => ok(h.sync_initial_message(ns).await.map(|_| ())),
+            Op::ProcessMessage { author, key, ts_off, content } => {
+                let e = self.uni.entry(*author, key, self.uni.t0 + ts_off, *content);
+                let zero = vec![0u8; 64];
+                let m = crate::wire::RawMessage { parts: vec![crate::wire::RawPart::Item { x: zero.clone(), y: zero, values: vec![(crate::wire::RawEntry::of(&e), 0)], have_local: true }] };
+                ok(h.sync_process_message(ns, m.into_message().unwrap(), [4u8; 32], iroh_docs::SyncOutcome::default()).await.map(|_| ()))
+            }
             Op::GetExact { author, key } => match h.get_exact(ns, self.uni.authors[*author].id(), key.clone().into(), true).await {
                 Ok(e) => Reply::Entry(e.map(|e| E::of(&e).short())),
                 Err(_) => Reply::Err,
@@ -300,7 +316,13 @@ fn gen_op(rng: &mut Rng, n_authors: usize, uniq: &mut u64, client: usize, unique
             },
         },
         14 | 15 => Op::InsertRemote { author: rng.below(n_authors), key: keyspace(rng, uniq), ts_off: rng.below(6) as u64, content: if rng.chance(1, 4) { None } else { Some(rng.below(4)) } },
-        16 => Op::InitialMessage,
+        16 => {
+            if rng.chance(1, 2) {
+                Op::InitialMessage
+            } else {
+                Op::ProcessMessage { author: rng.below(n_authors), key: keyspace(rng, uniq), ts_off: rng.below(6) as u64, content: if rng.chance(1, 4) { None } else { Some(rng.below(4)) } }
+            }
+        }
         17 | 18 => {
             drop(keyspace);
             let key = if known.is_empty() { vec![b'k', rng.below(3) as u8] } else { rng.pick(known).clone() };
@@ -352,7 +374,25 @@ fn sequential_case(ctx: &mut Ctx, case: u64, rng: &mut Rng) {
                     .map(|(d, op)| if matches!(op, Op::Drop) { (d, Op::GetState) } else { (d, op) })
                     .collect();
                 let futs = batch.iter().map(|(d, op)| clients[*d].exec(op));
-                let got: Vec<Reply> = { use n0_future::IterExt; futs.join_all().await };
+                // (polled in order by hand: each first poll sends the request; no third-party join combinator,
+                // whose fence-based waker refcount ThreadSanitizer misreports)
+                let got: Vec<Reply> = {
+                    let mut futs: Vec<_> = futs.map(|f| (Box::pin(f), None::<Reply>)).collect();
+                    std::future::poll_fn(|cx| {
+                        let mut all = true;
+                        for (f, out) in futs.iter_mut() {
+                            if out.is_none() {
+                                match std::future::Future::poll(f.as_mut(), cx) {
+                                    std::task::Poll::Ready(r) => *out = Some(r),
+                                    std::task::Poll::Pending => all = false,
+                                }
+                            }
+                        }
+                        if all { std::task::Poll::Ready(()) } else { std::task::Poll::Pending }
+                    })
+                    .await;
+                    futs.into_iter().map(|(_, o)| o.unwrap()).collect()
+                };
                 ctx.count("pipelined_batches", 1);
                 let mut bad = None;
                 for ((d, op), g) in batch.iter().zip(got.iter()) {
@@ -374,7 +414,7 @@ fn sequential_case(ctx: &mut Ctx, case: u64, rng: &mut Rng) {
             if rng.chance(1, 10) {
                 let d = rng.below(2);
                 let op = gen_op(rng, 2, &mut uniq, 0, false, &mut known);
-                if matches!(op, Op::SetSync(_) | Op::Subscribe | Op::InsertLocal { .. } | Op::DeletePrefix { .. } | Op::InsertRemote { .. } | Op::ImportWrite | Op::ImportRead) {
+                if matches!(op, Op::SetSync(_) | Op::Subscribe | Op::InsertLocal { .. } | Op::DeletePrefix { .. } | Op::InsertRemote { .. } | Op::ProcessMessage { .. } | Op::ImportWrite | Op::ImportRead) {
                     {
                         let mut fut = Box::pin(clients[d].exec(&op));
                         // one poll sends the request (the queue is never full here), then the future is dropped
